@@ -96,6 +96,17 @@ class Heap:
 
     def begin_op(self):
         self.touched = {}
+        for k in [k for k in self.objs if k.startswith("~")]:  # argument objects of the previous random-argument template
+            del self.objs[k]
+
+    def arg(self, name, obj):
+        """A caller-owned argument object built by a random-argument template: snapshotted like a heap object for this op."""
+        from .canon import snap
+
+        key = "~" + name
+        self.objs[key] = obj
+        self.touched[key] = snap(obj)
+        return obj
 
     def __getitem__(self, name):
         from .canon import snap
@@ -284,18 +295,27 @@ for _fam, _groups in {
         FAMILY[_g] = _fam
 
 
+_PAIRS = {}
+
+
 def same_group_pairs(tier="thorough"):
-    ops = _cat().OPS
-    names = sorted(n for n in ops if tier == "thorough" or not ops[n].huge)
-    return [(a, b) for a in names for b in names if ops[a].group == ops[b].group]
+    """Ordered pairs of fixed templates of one group (computed once per tier, before the zygotes are forked)."""
+    if tier not in _PAIRS:
+        ops = _cat().OPS
+        by_group = {}
+        for n in sorted(n for n in ops if "~" not in n and (tier == "thorough" or not ops[n].huge)):
+            by_group.setdefault(ops[n].group, []).append(n)
+        _PAIRS[tier] = sorted((a, b) for g in by_group.values() for a in g for b in g)
+    return _PAIRS[tier]
 
 
 def generate(seed, tier, index=0, batch_seed=None):
     rng = random.Random(seed)
     ops = _cat().OPS
     active_targets = set(mutation_targets(batch_seed, tier)) if batch_seed is not None else set(_cat().MUTATIONS)
-    names = sorted(n for n in ops if tier == "thorough" or not ops[n].huge)
-    groups = sorted(set(o.group for o in ops.values()))
+    rnames = rand_names(batch_seed, tier)
+    names = sorted(n for n in ops if "~" not in n and (tier == "thorough" or not ops[n].huge)) + sorted(rnames)
+    groups = sorted(set(ops[n].group for n in names))
     enabled = [g for g in groups if rng.random() < rng.choice([0.4, 0.7, 1.0])] or [rng.choice(groups)]
     faults_on = rng.random() < 0.6
     sw = {
@@ -352,7 +372,14 @@ def generate(seed, tier, index=0, batch_seed=None):
         return {"property": PROP, "seed": seed, "tier": tier, "swarm": sw, "ops": out, "sched": sched}
     seq = []
     pairs = same_group_pairs(tier)
-    if tier == "thorough" and index < len(pairs):
+    if rnames and rng.random() < 0.2:
+        # two random-argument templates of one base: same function, arguments that agree in part (what a careless cache key sees)
+        first = rng.choice(rnames)
+        base, _, sd = first.rpartition("~")
+        sib = [n for n in rnames if n.rpartition("~")[0] == base and int(n.rpartition("~")[2]) // 16 == int(sd) // 16]
+        seq.extend(rng.sample(sib, min(len(sib), rng.choice([2, 3]))))
+        sw["forced_pair"] = list(seq[:2])
+    elif tier == "thorough" and index < len(pairs):
         seq.extend(pairs[index])
         sw["forced_pair"] = list(pairs[index])
     elif rng.random() < 0.5:
@@ -770,10 +797,36 @@ def pristine_outcome(name, rng_seed, mutated=None, traced=False):
     return {"outcome": out, "N": counter.count, "lines": sorted(lines), "heap": sorted(h.touched)}
 
 
-def all_keys(tier="thorough"):
+RAND_TEMPLATES = {"quick": 360, "thorough": 2400}
+
+
+def rand_names(batch_seed, tier):
+    """The batch's random-argument templates: 'base~<n>' names, a pure function of the batch seed (rotating through the bases)."""
+    if batch_seed is None:
+        return []
+    cat = _cat()
+    bases = sorted(cat.RANDOPS)
+    rng = random.Random(derive_seed(batch_seed, "C20-random-arguments", 0))
+    out, seen = [], set()
+    i = 0
+    while len(out) < RAND_TEMPLATES[tier] and i < 20 * RAND_TEMPLATES[tier]:
+        # a cluster of siblings: member 0 and two or three variations of it (catalogue.SiblingRandom)
+        base, cluster = bases[i % len(bases)], rng.randrange(100000)
+        i += 1
+        for member in [0] + rng.sample(range(1, 16), rng.choice([2, 3])):
+            name = "%s~%d" % (base, 16 * cluster + member)
+            if name not in seen:
+                seen.add(name)
+                out.append(name)
+    for n in out:
+        cat.OPS[n]  # materialise
+    return out
+
+
+def all_keys(tier="thorough", batch_seed=None):
     ops = _cat().OPS
     keys = []
-    for n in sorted(ops):
+    for n in sorted(k for k in ops if "~" not in k) + sorted(rand_names(batch_seed, tier)):
         if ops[n].huge and tier != "thorough":
             continue
         if ops[n].rand:
@@ -886,7 +939,8 @@ def variant_keys(targets, table):
 
 def prepare(farm, batch_seed, tier, cfg, harness_errors):
     targets = mutation_targets(batch_seed, tier)
-    table = build_table(farm, all_keys(tier), harness_errors, full=(tier == "thorough"), salt=batch_seed)
+    table = build_table(farm, all_keys(tier, batch_seed), harness_errors, full=(tier == "thorough"), salt=batch_seed)
+    PREP_INFO["random_argument_templates"] = {"bases": len(_cat().RANDOPS), "drawn_for_this_batch_seed": len(rand_names(batch_seed, tier))}
     table.update(build_table(farm, variant_keys(targets, table), harness_errors))
     PREP_INFO["caller_mutation_targets"] = targets
     covered = set()
@@ -978,7 +1032,7 @@ def finish_coverage(cov, stats, sets):
     ops = _cat().OPS
     pairs = same_group_pairs()
     rk = {}
-    for n, o in ops.items():
+    for n, o in list(ops.items()):
         rk[n] = [n + "#%d" % s for s in RAND_SEEDS] if o.rand else [n]
     seen = sets.get("ordered_pairs", set())
     covered = 0
@@ -986,8 +1040,10 @@ def finish_coverage(cov, stats, sets):
         if any((x + ">" + y) in seen for x in rk[a] for y in rk[b]):
             covered += 1
     cov.update(PREP_INFO)
-    cov["catalogue"] = {"templates": len(ops), "groups": len(set(o.group for o in ops.values())),
-                        "heap_objects": len(_cat().HEAP), "pristine_keys": len(all_keys())}
+    static = [n for n in ops if "~" not in n]
+    cov["catalogue"] = {"templates": len(static), "groups": len(set(ops[n].group for n in static)),
+                        "heap_objects": len(_cat().HEAP), "pristine_keys": len(all_keys()),
+                        "random_argument_bases": len(_cat().RANDOPS)}
     cov["same_group_ordered_pairs"] = {"covered": covered, "total": len(pairs)}
     cov["templates_executed_distinct"] = len(set(k.split("#")[0] for k in sets.get("templates_executed", set())))
     cov["defaults_changed_functions"] = sorted(sets.get("defaults_changed", set()))[:40]
@@ -1034,3 +1090,5 @@ def signature(trace, v):
 # Import the catalogue in the vcheck process, before the zygotes are forked: building 900 templates (pairwise covering
 # arrays included) takes ~0.2 s, which every job child would otherwise pay again.
 _cat()
+same_group_pairs("quick")
+same_group_pairs("thorough")
